@@ -164,6 +164,9 @@ def find_paths(directory, pattern, ignore=None, sort=True):
     for incl in as_tuple(pattern):
         files += [f for f in directory.rglob(incl) if f not in excludes]
 
+    # A file may match more than one include pattern but must be listed only once
+    files = list(dict.fromkeys(files))
+
     return sorted(files) if sort else files
 
 
